@@ -2033,13 +2033,21 @@ class _Duration(Duration):
     def from_timedelta(
         cls, delta: timedelta, *, _1_microsecond: timedelta = timedelta(microseconds=1)
     ) -> "_Duration":
-        total_ms = delta // _1_microsecond
-        seconds = int(total_ms / 1e6)
-        nanos = int((total_ms % 1e6) * 1e3)
-        return cls(seconds, nanos)
+        # integer arithmetic: floats cannot hold microseconds beyond 2**53 us
+        total_us = delta // _1_microsecond
+        seconds, us = divmod(total_us, 10**6)
+        if seconds < 0 and us > 0:
+            # seconds and nanos of a Duration must not have opposite signs
+            seconds += 1
+            us -= 10**6
+        return cls(seconds, us * 1000)
 
     def to_timedelta(self) -> timedelta:
-        return timedelta(seconds=self.seconds, microseconds=self.nanos / 1e3)
+        # anything below a microsecond is dropped (rounded toward zero)
+        us = abs(self.nanos) // 1000
+        return timedelta(
+            seconds=self.seconds, microseconds=us if self.nanos >= 0 else -us
+        )
 
     @staticmethod
     def delta_to_json(delta: timedelta) -> str:
